@@ -4,7 +4,6 @@ import (
 	"fmt"
 	"go/token"
 	"go/types"
-	"sort"
 	"strconv"
 	"strings"
 
@@ -1154,110 +1153,3 @@ func extReplacerReplace(e *Exec, fr *frame, pos token.Pos, fn *ssa.Function, arg
 // rendering of the value kinds the transform produces (maps with concrete keys in sorted
 // order, slices, strings with possibly symbolic bytes, integers, concrete floats, bools,
 // nil). Non-finite floats are an error, as in the real encoder.
-func extJSONMarshal(e *Exec, fr *frame, pos token.Pos, fn *ssa.Function, args []Value) Value {
-	var out []*Term
-	var fail string
-	lit := func(s string) {
-		out = append(out, e.strConst(s).b...)
-	}
-	var render func(v Value)
-	render = func(v Value) {
-		switch x := v.(type) {
-		case IfaceV:
-			if x.t == nil {
-				lit("null")
-				return
-			}
-			switch y := x.v.(type) {
-			case StrV:
-				lit("\"")
-				out = append(out, y.b...)
-				lit("\"")
-			case *Term:
-				w, signed, _ := intWidth(x.t)
-				if w == 0 {
-					if y.IsConst() {
-						if y.val == 1 {
-							lit("true")
-						} else {
-							lit("false")
-						}
-					} else if e.decide(y) {
-						lit("true")
-					} else {
-						lit("false")
-					}
-					return
-				}
-				var n int64
-				if y.IsConst() {
-					n = y.SVal()
-					if !signed {
-						n = int64(y.val)
-					}
-				} else {
-					n = e.concretizeInt(e.toInt64Term(y, x.t), "json number")
-				}
-				lit(strconv.FormatInt(n, 10))
-			case FloatV:
-				if y.f != y.f || y.f > 1.7976931348623157e308 || y.f < -1.7976931348623157e308 {
-					fail = "json: unsupported value: " + strconv.FormatFloat(y.f, 'g', -1, 64)
-					return
-				}
-				lit(strconv.FormatFloat(y.f, 'g', -1, 64))
-			case *MapV:
-				if y == nil {
-					lit("null")
-					return
-				}
-				type kv struct {
-					k string
-					v Value
-				}
-				var kvs []kv
-				for i, k := range y.keys {
-					if k == nil {
-						continue
-					}
-					ks, ok := k.(StrV).conc()
-					if !ok {
-						panic(unsupported("json.Marshal: symbolic map key"))
-					}
-					kvs = append(kvs, kv{ks, y.vals[i]})
-				}
-				sort.Slice(kvs, func(a, b int) bool { return kvs[a].k < kvs[b].k })
-				lit("{")
-				for i, p := range kvs {
-					if i > 0 {
-						lit(",")
-					}
-					lit(strconv.Quote(p.k) + ":")
-					render(p.v)
-				}
-				lit("}")
-			case SliceV:
-				if y.data == nil {
-					lit("null")
-					return
-				}
-				lit("[")
-				for i, el := range y.data {
-					if i > 0 {
-						lit(",")
-					}
-					render(el)
-				}
-				lit("]")
-			default:
-				panic(unsupported(fmt.Sprintf("json.Marshal of %T", x.v)))
-			}
-		default:
-			panic(unsupported(fmt.Sprintf("json.Marshal of %T", v)))
-		}
-	}
-	render(args[0])
-	if fail != "" {
-		return TupleV{SliceV{}, e.mkError(fail)}
-	}
-	return TupleV{termsToSlice(out), IfaceV{}}
-}
